@@ -14,9 +14,15 @@ Node shape (uniform, so that TLC can access every field of every node):
   what : description of the malformation (bad)
 """
 
+import hashlib
 import json
 
 from . import common  # noqa: F401  (sets sys.path to the working tree)
+
+
+def desc_digest(desc):
+    """digest of a description text (texts travel to TLC as digests, not as raw strings)"""
+    return hashlib.sha256(str(desc).encode("utf-8", "replace")).hexdigest()[:12]
 
 
 def _node(**kw):
@@ -76,7 +82,7 @@ def export_fields(fields):
         except (TypeError, ValueError):
             ok = False
         if not ok:
-            out[name] = {"t": "BAD", "w": 0, "sc": False, "us": "_" in name, "d": False}
+            out[name] = {"t": "BAD", "w": 0, "sc": False, "us": "_" in name, "d": False, "dd": ""}
             continue
         out[name] = {
             "t": atyp,
@@ -84,6 +90,7 @@ def export_fields(fields):
             "sc": ares not in (0, 1),
             "us": "_" in name,
             "d": isinstance(desc, str),
+            "dd": desc_digest(desc),
         }
     return out
 
